@@ -11,9 +11,10 @@ import numpy as np
 from . import gen, oracles as O
 
 CLASSES = ["gap", "touch", "overlap", "deep", "same", "copy", "nested", "lattice", "parallel", "free", "far", "coplanar",
-           "feature"]
+           "feature", "axial"]
 DEFAULT_P = {"gap": .2, "touch": .12, "overlap": .1, "deep": .1, "same": .03, "copy": .04, "nested": .06, "lattice": .08,
-             "parallel": .06, "free": .07, "far": .05, "coplanar": .04, "feature": .05}
+             "parallel": .06, "free": .07, "far": .05, "coplanar": .04, "feature": .05, "axial": .04}
+AXIAL_KINDS = ("sphere", "ellipsoid", "capsule", "cylinder", "box")
 
 
 def quarter_turn(rng):
@@ -121,7 +122,21 @@ def make_pair(rng, kA=None, kB=None, margin_p=0.15, class_p=None, smin=1e-2, sma
             tags.append("needle")
         return sp
 
-    if cls == "lattice":
+    if cls == "axial" and not (kA in AXIAL_KINDS and kB in AXIAL_KINDS):
+        cls = "lattice"
+    if cls == "axial":
+        # 'in front of each other': lattice shapes (signed-permutation poses, dyadic sizes), B on a principal axis of A at
+        # an exact gap g. Both shapes are symmetric about that line, so the distance is exactly g (the plane normal to
+        # the line separates by g, the points on the line attain it)
+        sA = lattice_spec(rng, kA); sB = lattice_spec(rng, kB)
+        oA0 = O.oracle(sA); oB0 = O.oracle(sB)
+        u = np.zeros(3); u[int(rng.integers(3))] = float(rng.choice([-1.0, 1.0]))
+        g = float(rng.choice([0.125, 0.25, 0.5, 1.0, 1.5, 3.0, 8.0]))
+        hA = oA0.h(u) - float(oA0.center() @ u); hB = oB0.h(-u) + float(oB0.center() @ u)
+        sB = O.translated(sB, oA0.center() + (hA + g + hB) * u - oB0.center())
+        truth["dist"] = g; truth["u"] = u
+        truth["pa"] = oA0.center() + hA * u; truth["pb"] = truth["pa"] + g * u
+    elif cls == "lattice":
         sA = lattice_spec(rng, kA); sB = lattice_spec(rng, kB)
     elif cls == "far":
         sA = spec(kA, far_ok=False); sB = spec(kB, far_ok=False)
